@@ -163,8 +163,15 @@ def callVal (r : Rec N) (f : Val N) (ctx : Option (Option (Val N))) (argv : List
     let v := argv.head?.getD none
     let v1 ← r.call g none [v]
     r.call h none [v1]
-  | .regexFn _ => throw (.unsupported "regex")
-  | .matchNext _ => throw (.unsupported "regex")
+  | .regexFn _ tbl =>
+    -- regexCallable.Call: no argument or a non-string argument gives no value
+    match argv with
+    | some (.str s) :: _ =>
+      match tbl.lookup s with
+      | some ms => pure (firstMatch ms)
+      | none => throw (.unsupported "regex engine on an unlisted subject")
+    | _ => pure none
+  | .matchNext rest => pure (firstMatch rest)
   | _ => throw (.eval .nonCallable)
 
 /-- eval.go `eval`: dispatch on the node type (sequence results are collapsed inside
@@ -176,7 +183,7 @@ def evalNode (r : Rec N) (node : Node N) (data : Option (Val N)) (env : Nat) :
   | .num x => pure (some (.num x))
   | .bool b => pure (some (.bool b))
   | .null => pure (some .null)
-  | .regex p => pure (some (.regexFn p))
+  | .regex p tbl => pure (some (.regexFn p tbl))
   | .var name => if name == "" then pure data else lookupVar env name
   | .name k => pure (evalName k data)
   | .path steps keep => evalPath r steps keep data env
